@@ -30,3 +30,9 @@ Theorem C11_justifications_not_stale :
   forallb (fun j => existsb (fun r => Config.beqb (fst (fst (fst r))) j) cpd_fields) justified = true.
 Proof. exact justified_fields_exist. Qed.
 Print Assumptions C11_justifications_not_stale.
+
+(** the second inventory: no static-storage variable outside cpd is unreviewed (a function-local static initialised from
+    per-file data is how state survives uncrustify_end()) *)
+Theorem C11_statics_reviewed : unreviewed_statics = [].
+Proof. exact statics_reviewed. Qed.
+Print Assumptions C11_statics_reviewed.
